@@ -71,10 +71,11 @@ func genRec(t *rapid.T) recCase {
 	c := recCase{HasExt: rapid.IntRange(0, 9).Draw(t, "hasext") > 0, JSON: rapid.Bool().Draw(t, "json")}
 	c.Chain = genSet(t, 4)
 	nc := rapid.IntRange(0, 3).Draw(t, "nctx")
-	ids := [][]byte{[]byte("ctx-a"), []byte("ctx-b"), {0xff, 0x00, 0x01}, []byte("")}
+	ids := [][]byte{[]byte("ctx-a"), []byte("ctx-b"), {0xff, 0x00, 0x01}, []byte(""), []byte("crab"), []byte("abcd1234")} // the last two read as base64 too
+	off := rapid.IntRange(0, len(ids)-1).Draw(t, "ctxoff")
 	for i := 0; i < nc; i++ {
 		s := genSet(t, 3)
-		s.ContextID = ids[i]
+		s.ContextID = ids[(off+i)%len(ids)]
 		c.Contextual = append(c.Contextual, s)
 	}
 	if nc > 0 && rapid.IntRange(0, 3).Draw(t, "hitctx") > 0 {
